@@ -46,7 +46,7 @@ Definition store_step (fs : list (bytes * bytes)) (o : hop) : list (bytes * byte
   | OReplace n v => if is_cl n then without n else without n ++ [(n, v)]
   | ORemove n => without n
   | OSetCL _ => fs
-  | OSetChunked => fs ++ [(bs "transfer-encoding", bs "chunked")]
+  | OSetChunked => if eval_chunked fs then fs else fs ++ [(bs "transfer-encoding", bs "chunked")]
   | OSetClose => fs ++ [(bs "connection", bs "close")]
   end.
 Definition spec_stored (ops : list hop) : list (bytes * bytes) := fold_left store_step ops [].
